@@ -46,7 +46,7 @@ const (
 	c12Mod          = "github.com/rpcpool/yellowstone-faithful"
 	c12AllocBase    = 64 << 20 // allowed TotalAlloc growth per call: 64 MiB + 1000 x len(input)
 	c12AllocPerByte = 1000
-	c12MemLimit     = 8 << 30 // RLIMIT_AS of a worker
+	c12MemLimit     = 3276 << 20 // RLIMIT_AS of a worker, 3.2 GiB (see the note at Setrlimit)
 	c12HangLimit    = 20 * time.Second
 	c12SetupLimit   = 120 * time.Second
 )
@@ -56,6 +56,10 @@ const (
 // ---------------------------------------------------------------------------------------------
 
 var c12Entries []string
+
+var c12Start = time.Now()
+
+var c12Debug = os.Getenv("C12_DEBUG") != ""
 
 func c12E(name string) int {
 	c12Entries = append(c12Entries, name)
@@ -74,6 +78,8 @@ type c12Field struct {
 	Enc   string // u8 u16le u24le u32le u48le u64le uvarint cbor
 	Major byte   // cbor major type
 	Cur   uint64 // the consistent value
+	Extra []uint64 // further values worth trying, known to the seed's builder (e.g. the smallest value the parser's own check accepts)
+	Big   bool   // a 64-bit element count: pairs that rewrite one of its upper six bytes are not run (see bigByte)
 }
 
 func (f c12Field) max() uint64 {
@@ -144,8 +150,12 @@ func c12FieldVals(f c12Field, thorough bool) []uint64 {
 	if f.Cur < max {
 		cand = append(cand, f.Cur+1)
 	}
+	cand = append(cand, f.Extra...)
 	if thorough {
 		cand = append(cand, 1<<16, 1<<24, 1<<31-1, 1<<31, 1<<32-1, 1<<32, 1<<63-1, 1<<63, 255, 256, 65535)
+		for v := uint64(3); v <= 64; v++ { // every small value
+			cand = append(cand, v)
+		}
 	}
 	var out []uint64
 	seen := map[uint64]bool{f.Cur: true}
@@ -212,6 +222,60 @@ type c12Fam struct {
 	nPair, nFieldPair      int
 	work                   []byte
 	seedSig                string
+	fcaseIdx               map[[2]uint64]int
+	bigByte                map[int]bool // offsets of the upper bytes (index >= 2) of Big fields
+}
+
+// member keys identify ONE deviation of a pair (for the skip list of deviations that alone kill a worker)
+func c12ByteMember(off, val int) int64 { return int64(off)<<8 | int64(val) }
+func c12FieldMember(fcase int) int64   { return -int64(fcase) - 1 }
+
+func (f *c12Fam) members(d c12Dev) []int64 {
+	var out []int64
+	switch d.Kind {
+	case "byte", "byte2":
+		for k := 0; k < 2; k++ {
+			if d.Off[k] >= 0 {
+				out = append(out, c12ByteMember(d.Off[k], d.Val[k]))
+			}
+		}
+	case "field", "field2":
+		for k := 0; k < 2; k++ {
+			if d.Fld[k] >= 0 {
+				out = append(out, c12FieldMember(f.fcaseIdx[[2]uint64{uint64(d.Fld[k]), d.FVal[k]}]))
+			}
+		}
+	}
+	return out
+}
+
+// staticSkip: a pair is not run when one of its members rewrites an upper byte (index >= 2) of a 64-bit element
+// count (or sets such a field to 2^16 or more). Every such deviation is run alone (k = 1); alone it asks the parser
+// for 512 KiB .. exabytes, i.e. it is slow, an allocation violation, or fatal to the worker, for every partner.
+func (f *c12Fam) staticSkip(d c12Dev) bool {
+	switch d.Kind {
+	case "byte2":
+		return f.bigByte[d.Off[0]] || f.bigByte[d.Off[1]]
+	case "field2":
+		for k := 0; k < 2; k++ {
+			if f.Fields[d.Fld[k]].Big && d.FVal[k] >= 1<<16 {
+				return true
+			}
+		}
+	}
+	return false
+}
+
+func (f *c12Fam) memberDev(m int64) c12Dev {
+	if m >= 0 {
+		d := c12NoDev("byte")
+		d.Off[0], d.Val[0] = int(m>>8), int(m&0xff)
+		return d
+	}
+	fc := f.fcases[int(-m-1)]
+	d := c12NoDev("field")
+	d.Fld[0], d.FVal[0] = fc.F, fc.V
+	return d
 }
 
 func (f *c12Fam) prepare(thorough bool) {
@@ -231,10 +295,20 @@ func (f *c12Fam) prepare(thorough bool) {
 		}
 	}
 	f.fcases, f.fvals = nil, nil
+	f.fcaseIdx = map[[2]uint64]int{}
+	f.bigByte = map[int]bool{}
+	for _, fl := range f.Fields {
+		if fl.Big {
+			for o := fl.Off + 2; o < fl.Off+fl.Len; o++ {
+				f.bigByte[o] = true
+			}
+		}
+	}
 	for fi, fl := range f.Fields {
 		vs := c12FieldVals(fl, thorough)
 		f.fvals = append(f.fvals, vs)
 		for _, v := range vs {
+			f.fcaseIdx[[2]uint64{uint64(fi), v}] = len(f.fcases)
 			f.fcases = append(f.fcases, c12FieldCase{fi, v})
 		}
 	}
@@ -582,6 +656,9 @@ func (x *c12Exec) Guard(entry int, f func() error) bool {
 	if x.quiet {
 		return outcome == "ok"
 	}
+	if c12Debug && x.dev.Kind == "identity" && outcome != "ok" {
+		fmt.Fprintf(os.Stderr, "c12 debug: [%s] %s on the unchanged seed: %v %v\n", x.fam.Name, name, err, pn)
+	}
 	x.outcomes[x.fam.Format+" "+name+": "+outcome]++
 	if pn != nil {
 		key := fmt.Sprintf("C12|panic|%s|%s|%s", name, pn.Site, c12PanicClass(pn.Msg))
@@ -595,52 +672,54 @@ func (x *c12Exec) Guard(entry int, f func() error) bool {
 	return outcome == "ok"
 }
 
-// allocFinding confirms an allocation above the limit with runtime.MemStats.TotalAlloc on a second run of
-// the same call, and names the allocating repository function with a rate-1 heap profile of a third run.
+// allocFinding reports TotalAlloc growth above the limit. To name the allocating repository function the call is
+// run a second time between two heap-profile snapshots (the worker runs with MemProfileRate = 1 MiB, so every
+// allocation of tens of MiB is sampled with certainty; each snapshot is preceded by three collections, so the first
+// run's block is free again before the second run allocates). The record that grew most is the allocation site.
 func (x *c12Exec) allocFinding(entry int, f func() error, growth, limit uint64) {
 	name := c12Entries[entry]
-	var m0, m1 runtime.MemStats
-	runtime.ReadMemStats(&m0)
+	before := c12ProfSnap()
+	a0 := c12AllocNow()
 	c12Call(f)
-	runtime.ReadMemStats(&m1)
-	confirmed := m1.TotalAlloc - m0.TotalAlloc
-	if confirmed <= limit {
-		x.incon = append(x.incon, fmt.Sprintf("%s on [%s] %s: allocation of %d bytes (limit %d) seen once but only %d bytes on the confirming run", name, x.fam.Name, x.fam.describe(x.dev), growth, limit, confirmed))
+	again := c12AllocNow() - a0
+	after := c12ProfSnap()
+	if again <= limit {
+		x.incon = append(x.incon, fmt.Sprintf("%s on [%s] %s: allocation of %d bytes (limit %d) seen once but only %d bytes on the confirming run", name, x.fam.Name, x.fam.describe(x.dev), growth, limit, again))
 		return
 	}
-	site, where := c12AllocSite(f)
+	site, where := c12ProfSite(before, after)
 	key := fmt.Sprintf("C12|alloc|%s|%s", name, site)
-	what := fmt.Sprintf("%s allocates %d bytes (limit 64 MiB + 1000 x %d input bytes = %d) on [%s] %s; largest allocation in %s (%s)", name, confirmed, len(x.in), limit, x.fam.Name, x.fam.describe(x.dev), site, where)
-	x.violation(key, what, x.replay(entry, map[string]interface{}{"total_alloc_growth": confirmed, "limit": limit, "site": site, "where": where}))
+	what := fmt.Sprintf("%s allocates %d bytes (limit 64 MiB + 1000 x %d input bytes = %d) on [%s] %s; largest allocation in %s (%s)", name, growth, len(x.in), limit, x.fam.Name, x.fam.describe(x.dev), site, where)
+	x.violation(key, what, x.replay(entry, map[string]interface{}{"total_alloc_growth": growth, "limit": limit, "site": site, "where": where}))
 	x.outcomes[x.fam.Format+" "+name+": alloc"]++
-	runtime.GC()
+	if growth > 256<<20 {
+		debug.FreeOSMemory()
+	}
 }
 
-func c12AllocSite(f func() error) (site, where string) {
-	snap := func() map[[32]uintptr]int64 {
-		for i := 0; i < 3; i++ {
-			runtime.GC()
-		}
-		n, _ := runtime.MemProfile(nil, true)
-		recs := make([]runtime.MemProfileRecord, n+200)
-		n, ok := runtime.MemProfile(recs, true)
-		out := map[[32]uintptr]int64{}
-		if !ok {
-			return out
-		}
-		for _, r := range recs[:n] {
-			out[r.Stack0] += r.AllocBytes
-		}
+type c12ProfRec struct{ bytes, objects int64 }
+
+func c12ProfSnap() map[[32]uintptr]c12ProfRec {
+	for i := 0; i < 3; i++ {
+		runtime.GC()
+	}
+	out := map[[32]uintptr]c12ProfRec{}
+	n, _ := runtime.MemProfile(nil, true)
+	recs := make([]runtime.MemProfileRecord, n+200)
+	n, ok := runtime.MemProfile(recs, true)
+	if !ok {
 		return out
 	}
-	old := runtime.MemProfileRate
-	runtime.MemProfileRate = 1
-	before := snap()
-	c12Call(f)
-	after := snap()
-	runtime.MemProfileRate = old
-	var best [32]uintptr
-	var bestDelta int64
+	for _, r := range recs[:n] {
+		c := out[r.Stack0]
+		c.bytes += r.AllocBytes
+		c.objects += r.AllocObjects
+		out[r.Stack0] = c
+	}
+	return out
+}
+
+func c12ProfSite(before, after map[[32]uintptr]c12ProfRec) (site, where string) {
 	keys := make([][32]uintptr, 0, len(after))
 	for k := range after {
 		keys = append(keys, k)
@@ -653,12 +732,14 @@ func c12AllocSite(f func() error) (site, where string) {
 		}
 		return false
 	})
+	var best [32]uintptr
+	var bestDelta int64
 	for _, k := range keys {
-		if d := after[k] - before[k]; d > bestDelta {
+		if d := after[k].bytes - before[k].bytes; d > bestDelta {
 			best, bestDelta = k, d
 		}
 	}
-	if bestDelta == 0 {
+	if bestDelta < 1<<20 {
 		return "?", ""
 	}
 	n := 0
@@ -726,6 +807,8 @@ type c12Job struct {
 	SeedHash   string `json:"seed_hash"`
 	DeadlineNs int64  `json:"deadline_ns"`
 	NoLimit    bool   `json:"no_limit"`
+	SeedCache  string `json:"seed_cache"`
+	Skip       map[string][]int64 `json:"skip,omitempty"` // per family: deviations that alone kill a worker
 }
 
 type c12Line struct {
@@ -738,6 +821,10 @@ type c12Line struct {
 	Outcomes map[string]int64 `json:"outcomes,omitempty"`
 	Counts   map[string]int64 `json:"counts,omitempty"`
 	Msg      string           `json:"msg,omitempty"`
+	Skipped  int64            `json:"skipped,omitempty"`
+	SkippedStatic int64       `json:"skipped_static,omitempty"`
+	Ns       int64            `json:"ns,omitempty"`
+	Fam      string           `json:"fam,omitempty"`
 }
 
 func c12SeedHash(fams []*c12Fam) string {
@@ -794,8 +881,8 @@ func c12ChildMain(t *testing.T, jobPath string) {
 	}
 	os.Setenv("VERIF_TIER", job.Tier)
 	os.Setenv("VERIF_SHARD", job.Shard)
-	runtime.MemProfileRate = 0
-	debug.SetGCPercent(400)
+	runtime.MemProfileRate = 1 << 20 // every allocation of tens of MiB is sampled with certainty
+	debug.SetMemoryLimit(256 << 20) // keep garbage from piling up towards RLIMIT_AS
 	prog, err := c12MapProg(job.Prog, false)
 	if err != nil {
 		emit(c12Line{T: "error", Msg: "map progress page: " + err.Error()})
@@ -805,6 +892,7 @@ func c12ChildMain(t *testing.T, jobPath string) {
 		emit(c12Line{T: "error", Msg: err.Error()})
 		return
 	}
+	c12SeedCacheDir = job.SeedCache
 	fams := c12Families(filepath.Join(job.Scratch, "build"), job.Tier == "thorough")
 	if got := c12SeedHash(fams); got != job.SeedHash {
 		emit(c12Line{T: "error", Msg: fmt.Sprintf("seeds differ between parent and worker (%s vs %s): seed construction is not deterministic", job.SeedHash, got)})
@@ -817,6 +905,28 @@ func c12ChildMain(t *testing.T, jobPath string) {
 		f.seedSig = x.runCase(f, c12NoDev("identity"))
 	}
 	x.quiet = false
+	if c12Debug {
+		fmt.Fprintf(os.Stderr, "c12 debug: worker setup took %s\n", time.Since(c12Start))
+		if mp, err := os.ReadFile("/proc/self/maps"); err == nil {
+			for _, l := range strings.Split(string(mp), "\n") {
+				var lo, hi uint64
+				if n, _ := fmt.Sscanf(l, "%x-%x", &lo, &hi); n == 2 && hi-lo >= 32<<20 {
+					fmt.Fprintf(os.Stderr, "c12 debug: map %d MiB: %s\n", (hi-lo)>>20, l)
+				}
+			}
+		}
+		st, _ := os.ReadFile("/proc/self/status")
+		for _, l := range strings.Split(string(st), "\n") {
+			if strings.HasPrefix(l, "VmSize") || strings.HasPrefix(l, "VmRSS") {
+				fmt.Fprintln(os.Stderr, "c12 debug: worker after setup:", l)
+			}
+		}
+	}
+	// RLIMIT_AS: a worker (MALLOC_ARENA_MAX=1, GOMAXPROCS=2) has ~1.4 GiB of address space mapped after setup. With
+	// 3.2 GiB every single request of 2 GiB or more fails at once (fatal error: out of memory) instead of being
+	// zero-filled page by page, and requests up to ~1.2 GiB succeed. Both outcomes are reported under the SAME key
+	// C12|alloc|<entry>|<allocating function> (for a dead worker the function is read from the crash trace), so the
+	// key set does not depend on where exactly the limit lies or on collector timing.
 	if !job.NoLimit {
 		lim := syscall.Rlimit{Cur: c12MemLimit, Max: c12MemLimit}
 		if err := syscall.Setrlimit(syscall.RLIMIT_AS, &lim); err != nil {
@@ -842,6 +952,7 @@ func c12ChildMain(t *testing.T, jobPath string) {
 	runOne := func(fi int, f *c12Fam, ci int, d c12Dev, evals, nontriv *int64) {
 		binary.LittleEndian.PutUint64(prog[16:], uint64(*evals))
 		binary.LittleEndian.PutUint64(prog[24:], uint64(*nontriv))
+		binary.LittleEndian.PutUint64(prog[8:], ^uint64(0)) // no entry point running yet
 		binary.LittleEndian.PutUint64(prog[0:], uint64(fi)<<40|uint64(ci))
 		sig := x.runCase(f, d)
 		*evals++
@@ -866,6 +977,13 @@ func c12ChildMain(t *testing.T, jobPath string) {
 		return
 	}
 	batches := c12Batches(fams)
+	skipSets := map[string]map[int64]bool{}
+	for name, ms := range job.Skip {
+		skipSets[name] = map[int64]bool{}
+		for _, m := range ms {
+			skipSets[name][m] = true
+		}
+	}
 	for bi := job.StartBatch; bi < len(batches); bi++ {
 		if !vkit.Mine(int64(bi)) {
 			continue
@@ -877,14 +995,27 @@ func c12ChildMain(t *testing.T, jobPath string) {
 			lo = job.StartCase
 		}
 		binary.LittleEndian.PutUint64(prog[32:], uint64(bi))
-		var evals, nontriv int64
+		var evals, nontriv, skipped, skippedStatic int64
+		t0 := time.Now()
 		x.calls = 0
 		x.outcomes = map[string]int64{}
 		x.seen = map[string]int64{}
+		skip := skipSets[f.Name]
 		for ci := lo; ci < bt.Hi; ci++ {
 			d, ok := f.caseAt(ci)
 			if !ok {
 				continue
+			}
+			if f.staticSkip(d) {
+				skippedStatic++
+				continue
+			}
+			if len(skip) > 0 && (d.Kind == "byte2" || d.Kind == "field2") {
+				ms := f.members(d)
+				if skip[ms[0]] || skip[ms[1]] {
+					skipped++
+					continue
+				}
 			}
 			runOne(bt.Fam, f, ci, d, &evals, &nontriv)
 		}
@@ -892,7 +1023,7 @@ func c12ChildMain(t *testing.T, jobPath string) {
 			emit(c12Line{T: "incon", Msg: fmt.Sprintf("[%s] the code under test modified its input buffer during batch %d; buffer restored", f.Name, bi)})
 			copy(f.work, f.Seed)
 		}
-		emit(c12Line{T: "batch", Batch: bi, Evals: evals, NonTriv: nontriv, Calls: x.calls, Outcomes: x.outcomes, Counts: x.seen})
+		emit(c12Line{T: "batch", Batch: bi, Evals: evals, NonTriv: nontriv, Calls: x.calls, Outcomes: x.outcomes, Counts: x.seen, Skipped: skipped, SkippedStatic: skippedStatic, Ns: int64(time.Since(t0)), Fam: f.Name})
 		if job.DeadlineNs > 0 && time.Now().UnixNano() > job.DeadlineNs {
 			binary.LittleEndian.PutUint64(prog[0:], ^uint64(0))
 			emit(c12Line{T: "deadline", Batch: bi})
@@ -918,6 +1049,13 @@ type c12Parent struct {
 	calls     int64
 	deaths    int
 	seq       int
+	skipped   int64
+	skippedStatic int64
+	famNs     map[string]int64
+	famEv     map[string]int64
+	deathNs   int64
+	skip      map[string][]int64       // per family: deviations that alone kill a worker (3/3)
+	probed    map[string]map[int64]bool // per family: member -> kills alone?
 }
 
 type c12ChildResult struct {
@@ -942,6 +1080,7 @@ func (p *c12Parent) spawn(job c12Job, hangLimit time.Duration) c12ChildResult {
 	job.Prog = filepath.Join(p.dir, tag+".prog")
 	job.Scratch = filepath.Join(p.dir, tag+".scratch")
 	job.SeedHash = p.seedHash
+	job.SeedCache = c12SeedCacheDir
 	job.Tier = vkit.Tier()
 	job.Shard = os.Getenv("VERIF_SHARD")
 	var res c12ChildResult
@@ -959,12 +1098,12 @@ func (p *c12Parent) spawn(job c12Job, hangLimit time.Duration) c12ChildResult {
 	cmd := exec.Command(os.Args[0], "-test.run", "^TestVerif_C12$", "-test.timeout", "0")
 	env := []string{}
 	for _, e := range os.Environ() {
-		if strings.HasPrefix(e, "VERIF_OUT=") || strings.HasPrefix(e, "VERIF_REPLAY=") || strings.HasPrefix(e, "C12_") {
+		if strings.HasPrefix(e, "VERIF_OUT=") || strings.HasPrefix(e, "VERIF_REPLAY=") || strings.HasPrefix(e, "C12_JOB=") {
 			continue
 		}
 		env = append(env, e)
 	}
-	cmd.Env = append(env, "C12_JOB="+jobPath)
+	cmd.Env = append(env, "C12_JOB="+jobPath, "MALLOC_ARENA_MAX=1", "GOMAXPROCS=2")
 	cmd.Stdout, cmd.Stderr = ef, ef
 	cmd.SysProcAttr = &syscall.SysProcAttr{Pdeathsig: syscall.SIGKILL}
 	runtime.LockOSThread() // Pdeathsig is tied to the spawning thread
@@ -1022,6 +1161,13 @@ loop:
 			eb = eb[:1<<20]
 		}
 		res.stderr = string(eb)
+		if c12Debug {
+			for _, l := range strings.Split(res.stderr, "\n") {
+				if strings.HasPrefix(l, "c12 debug") {
+					fmt.Fprintln(os.Stderr, l)
+				}
+			}
+		}
 	}
 	if of, err := os.Open(job.Out); err == nil {
 		sc := bufio.NewScanner(of)
@@ -1065,6 +1211,10 @@ func (p *c12Parent) merge(res c12ChildResult) {
 			for k, v := range l.Counts {
 				p.counts[k] += v
 			}
+			p.skipped += l.Skipped
+			p.skippedStatic += l.SkippedStatic
+			p.famNs[l.Fam] += l.Ns
+			p.famEv[l.Fam] += l.Evals
 		case "incon":
 			R.InconclusiveF("%s", l.Msg)
 		case "problem":
@@ -1072,6 +1222,8 @@ func (p *c12Parent) merge(res c12ChildResult) {
 		}
 	}
 }
+
+var c12OomRe = regexp.MustCompile(`runtime: out of memory: cannot allocate [0-9]+-byte block`)
 
 var c12FatalRe = regexp.MustCompile(`(?m)^(fatal error: .*|panic: .*|runtime: out of memory.*|SIG[A-Z]+: .*)$`)
 
@@ -1083,6 +1235,9 @@ func c12FatalLine(res c12ChildResult) string {
 				line = l
 				break
 			}
+		}
+		if strings.Contains(line, "out of memory") || strings.Contains(line, "cannot allocate memory") {
+			return "fatal error: out of memory"
 		}
 		line = c12Digits.ReplaceAllString(line, "N")
 		if len(line) > 90 {
@@ -1097,19 +1252,67 @@ func (p *c12Parent) entryName(id uint64) string {
 	if id < uint64(len(c12Entries)) {
 		return c12Entries[id]
 	}
+	return "(outside an entry point)"
+}
+
+// c12CrashSite: innermost repository function on the stack of the crashing goroutine in a Go crash report.
+func c12CrashSite(stderr string) string {
+	i := strings.Index(stderr, "\ngoroutine ")
+	if i < 0 {
+		return "?"
+	}
+	block := stderr[i+1:]
+	if j := strings.Index(block, "\n\n"); j >= 0 {
+		block = block[:j]
+	}
+	for _, l := range strings.Split(block, "\n") {
+		if !strings.HasPrefix(l, c12Mod) {
+			continue
+		}
+		if k := strings.LastIndex(l, "("); k > 0 {
+			l = l[:k]
+		}
+		if c12IsHarnessFrame(l) {
+			continue
+		}
+		return c12TrimMod(l)
+	}
 	return "?"
 }
 
-// died handles a worker that died or stalled while running (fam, ci): re-run that case alone 3x.
+// deathKey classifies a worker that did not finish: stall, out of memory (same key as an allocation finding), other fatal error.
+func (p *c12Parent) deathKey(r c12ChildResult) string {
+	entry := p.entryName(r.progEnt)
+	switch {
+	case r.setupErr != "":
+		return "setup error: " + r.setupErr
+	case r.hung:
+		return "C12|hang|" + entry
+	case r.finished:
+		return "completed normally"
+	}
+	line := c12FatalLine(r)
+	if line == "fatal error: out of memory" {
+		return "C12|alloc|" + entry + "|" + c12CrashSite(r.stderr)
+	}
+	return "C12|fatal|" + entry + "|" + line
+}
+
+// died handles a worker that died or stalled while running a case: the case is re-run alone 3x and reported only
+// if it ends the same way every time. Afterwards the members of a pair are probed alone (see probe).
 func (p *c12Parent) died(res c12ChildResult, f *c12Fam, d c12Dev) {
 	R := p.R
 	p.deaths++
+	td := time.Now()
+	defer func() { p.deathNs += int64(time.Since(td)) }()
 	entry := p.entryName(res.progEnt)
-	key := "C12|fatal|" + entry + "|" + c12FatalLine(res)
-	if res.hung {
-		key = "C12|hang|" + entry
+	key := p.deathKey(res)
+	if c12Debug {
+		fmt.Fprintf(os.Stderr, "c12 debug: death %s on [%s] %s\n", key, f.Name, f.describe(d))
 	}
 	desc := fmt.Sprintf("[%s] %s", f.Name, f.describe(d))
+	defer p.probe(f, d)
+	p.loadShared()
 	if p.confirmed[key] {
 		p.counts[key]++
 		return
@@ -1125,38 +1328,89 @@ func (p *c12Parent) died(res c12ChildResult, f *c12Fam, d c12Dev) {
 	for i := 0; i < 3; i++ {
 		r := p.spawn(c12Job{Mode: "single", Family: f.Name, Dev: d}, c12HangLimit)
 		p.mergeViolsOnly(r)
-		var k string
-		switch {
-		case r.setupErr != "":
-			k = "setup error: " + r.setupErr
-		case r.hung:
-			k = "C12|hang|" + p.entryName(r.progEnt)
-		case !r.finished:
-			k = "C12|fatal|" + p.entryName(r.progEnt) + "|" + c12FatalLine(r)
-		default:
-			k = "completed normally"
-		}
+		k := p.deathKey(r)
 		seen = append(seen, k)
 		if k == key {
 			same++
 		}
 	}
-	if same == 3 {
-		p.confirmed[key] = true
-		p.counts[key]++
-		if res.hung {
-			R.Violation(key, fmt.Sprintf("%s does not return within %s on %s (worker killed; reproduced 3/3 alone)", entry, c12HangLimit, desc), replay)
-		} else {
-			tail := res.stderr
-			if len(tail) > 1500 {
-				tail = tail[:1500]
-			}
-			replay["stderr_head"] = tail
-			R.Violation(key, fmt.Sprintf("%s kills the process on %s: %s (under RLIMIT_AS %d GiB; reproduced 3/3 alone)", entry, desc, c12FatalLine(res), c12MemLimit>>30), replay)
-		}
+	if same != 3 {
+		R.InconclusiveF("worker died/stalled (%s) on %s but re-running the case alone 3x gave %v: not reported as a violation", key, desc, seen)
 		return
 	}
-	R.InconclusiveF("worker died/stalled (%s) on %s but re-running the case alone 3x gave %v: not reported as a violation", key, desc, seen)
+	p.confirmed[key] = true
+	p.counts[key]++
+	p.shareConfirmed(key)
+	if res.hung {
+		R.Violation(key, fmt.Sprintf("%s does not return within %s on %s (worker killed; reproduced 3/3 alone)", entry, c12HangLimit, desc), replay)
+		return
+	}
+	head := res.stderr
+	if len(head) > 1500 {
+		head = head[:1500]
+	}
+	replay["stderr_head"] = head
+	detail := c12FatalLine(res)
+	if m := c12OomRe.FindString(res.stderr); m != "" {
+		detail = m
+	}
+	R.Violation(key, fmt.Sprintf("%s kills the process on %s: %s (worker under RLIMIT_AS %d MiB; reproduced 3/3 alone)", entry, desc, detail, c12MemLimit>>20), replay)
+}
+
+// Shards of one bin/check run share the keys they have confirmed 3/3 (a file under $VERIF_SHM): a shard that sees a
+// worker die with a key another shard has already confirmed and reported only counts it. This saves re-running the
+// same kind of fatal case three more times in each of the 16 shards; it cannot add or remove a key.
+func (p *c12Parent) sharedPath() string {
+	if os.Getenv("VERIF_SHM") == "" {
+		return ""
+	}
+	return filepath.Join(os.Getenv("VERIF_SHM"), "c12-confirmed-"+p.seedHash)
+}
+
+func (p *c12Parent) loadShared() {
+	if sp := p.sharedPath(); sp != "" {
+		if b, err := os.ReadFile(sp); err == nil {
+			for _, l := range strings.Split(string(b), "\n") {
+				if l != "" {
+					p.confirmed[l] = true
+				}
+			}
+		}
+	}
+}
+
+func (p *c12Parent) shareConfirmed(key string) {
+	if sp := p.sharedPath(); sp != "" {
+		if f, err := os.OpenFile(sp, os.O_WRONLY|os.O_CREATE|os.O_APPEND, 0o644); err == nil {
+			f.WriteString(key + "\n")
+			f.Close()
+		}
+	}
+}
+
+// probe: after a death on a deviation, find out which single deviation kills a worker on its own (one run each,
+// cached). Pairs that contain such a deviation are not run afterwards (they are counted): without this every
+// fatal single deviation would cost one worker per pair partner.
+func (p *c12Parent) probe(f *c12Fam, d c12Dev) {
+	if f.K < 2 {
+		return // no pairs in this family
+	}
+	ms := f.members(d)
+	if p.probed[f.Name] == nil {
+		p.probed[f.Name] = map[int64]bool{}
+	}
+	for _, m := range ms {
+		if _, done := p.probed[f.Name][m]; done {
+			continue
+		}
+		r := p.spawn(c12Job{Mode: "single", Family: f.Name, Dev: f.memberDev(m)}, c12HangLimit)
+		p.mergeViolsOnly(r)
+		kills := r.setupErr == "" && !r.finished
+		p.probed[f.Name][m] = kills
+		if kills {
+			p.skip[f.Name] = append(p.skip[f.Name], m)
+		}
+	}
 }
 
 func (p *c12Parent) mergeViolsOnly(res c12ChildResult) {
@@ -1174,6 +1428,7 @@ func (p *c12Parent) runRange() {
 		job.DeadlineNs = d.UnixNano()
 	}
 	for {
+		job.Skip = p.skip
 		res := p.spawn(job, c12HangLimit)
 		p.merge(res)
 		if res.setupErr != "" {
@@ -1246,8 +1501,9 @@ func TestVerif_C12(t *testing.T) {
 		return
 	}
 	defer os.RemoveAll(dir)
+	c12SeedCacheDir = filepath.Join(dir, "seedcache")
 	fams := c12Families(filepath.Join(dir, "build"), vkit.Thorough())
-	p := &c12Parent{R: R, dir: dir, fams: fams, batches: c12Batches(fams), seedHash: c12SeedHash(fams), counts: map[string]int64{}, confirmed: map[string]bool{}}
+	p := &c12Parent{R: R, dir: dir, fams: fams, batches: c12Batches(fams), seedHash: c12SeedHash(fams), counts: map[string]int64{}, confirmed: map[string]bool{}, skip: map[string][]int64{}, probed: map[string]map[int64]bool{}, famNs: map[string]int64{}, famEv: map[string]int64{}}
 
 	// the unchanged seeds must be accepted (harness sanity), checked in-process
 	x := c12NewExec(filepath.Join(dir, "parent"))
@@ -1295,8 +1551,21 @@ func TestVerif_C12(t *testing.T) {
 			v.Count = int(n)
 		}
 	}
+	if c12Debug {
+		var names []string
+		for n := range p.famNs {
+			names = append(names, n)
+		}
+		sort.Slice(names, func(i, j int) bool { return p.famNs[names[i]] > p.famNs[names[j]] })
+		for _, n := range names {
+			fmt.Fprintf(os.Stderr, "c12 debug: time %8.2fs %8d evals  %s\n", float64(p.famNs[n])/1e9, p.famEv[n], n)
+		}
+		fmt.Fprintf(os.Stderr, "c12 debug: time %8.2fs in death handling (%d deaths)\n", float64(p.deathNs)/1e9, p.deaths)
+	}
 	R.Counters["entry_point_calls"] = p.calls
 	R.Counters["worker_deaths_or_stalls"] = int64(p.deaths)
+	R.Counters["pairs_not_run_because_one_member_alone_kills_the_worker"] = p.skipped
+	R.Counters["pairs_not_run_because_one_member_rewrites_an_upper_byte_of_a_64bit_element_count"] = p.skippedStatic
 	// bounds
 	total := 0
 	small, large := 0, 0
@@ -1321,7 +1590,7 @@ func TestVerif_C12(t *testing.T) {
 	R.Bounds["families_with_k2"] = small
 	R.Bounds["large_file_families"] = large
 	R.Bounds["byte_alphabet"] = "0x00 0x01 0x7f 0x80 0xff b^0x01 b^0x80"
-	R.Bounds["field_values"] = "0 1 2 max-1 max consistent-1 consistent+1" + map[bool]string{true: " 255 256 65535 2^16 2^24 2^31-1 2^31 2^32-1 2^32 2^63-1 2^63", false: ""}[vkit.Thorough()]
+	R.Bounds["field_values"] = "0 1 2 max-1 max consistent-1 consistent+1 (+ compact-index header length: 12, the smallest value its check accepts)" + map[bool]string{true: " 3..64 255 256 65535 2^16 2^24 2^31-1 2^31 2^32-1 2^32 2^63-1 2^63", false: ""}[vkit.Thorough()]
 	R.Bounds["alloc_limit"] = "64 MiB + 1000 x len(input)"
 	R.Bounds["worker_rlimit_as_bytes"] = c12MemLimit
 	R.Bounds["stall_limit_s"] = int(c12HangLimit / time.Second)
@@ -1336,5 +1605,5 @@ func TestVerif_C12(t *testing.T) {
 		}
 	}
 	R.Assume("a ReaderAt over the deviated bytes stands for the file / HTTP range source; manifest and linked-log entry points read a real file holding the deviated bytes")
-	R.Assume("RLIMIT_AS of 8 GiB stands for 'the machine's memory': a single allocation the worker cannot satisfy kills it (fatal error: out of memory) and is reported under C12|fatal")
+	R.Assume("RLIMIT_AS of 3 GiB stands for 'the machine's memory': a single allocation the worker cannot satisfy kills it (fatal error: out of memory) and is reported under C12|fatal")
 }
